@@ -189,6 +189,7 @@ def run_mrf(c, rec):
     locv = A(loc) if isinstance(loc, list) else loc
     geom = c20.make_geom(pd, n)
     if fam == "GMRF":
+        c20.decoy_other_layout(c.get("pd", 1), c.get("n", 0), bc, order)
         d = cuqi.distribution.GMRF(locv, c["prec"], bc_type=bc, order=order, geometry=geom)
     else:
         d = getattr(cuqi.distribution, fam)(locv, c["scale"], bc_type=bc, geometry=geom)
